@@ -286,6 +286,8 @@ def roundtrip_domain(P, decl, obj):
             v = getattr(obj, ins.name)
             if ins.optional and v is not None and len(v) == 0:
                 return False
+            if ins.length is None and any(isinstance(e, str) and len(e) == 0 for e in (v or ())):
+                return False        # an empty element of a read-to-end array is not representable
             for e in (v or ()):
                 if hasattr(e, "_byte_size") and not roundtrip_domain(P, P.decls[type(e).__qualname__], e):
                     return False
